@@ -105,7 +105,9 @@ where
                     .periodic_images(position, 3, false)
                     .map(|p| self.shape.transform(&p))
                 {
-                    sum += shape1.energy(&shape2);
+                    // Every pair of a molecule and an image is met twice in this loop, once
+                    // from either side, while the pairs within the cell above are met once.
+                    sum += 0.5 * shape1.energy(&shape2);
                 }
             }
         }
